@@ -40,6 +40,10 @@ func (c *Conversation) generateInstanceTag() error {
 // ExtractInstanceTags returns our and theirs instance tags from the message, and ok if the message was parsed properly
 func ExtractInstanceTags(m []byte) (ours, theirs uint32, ok bool) {
 	if bytes.HasPrefix(m, []byte("?OTR:")) {
+		if len(m) <= len(msgMarker) {
+			return 0, 0, false
+		}
+
 		msg, err := decode(encodedMessage(m))
 		if err != nil {
 			return 0, 0, false
@@ -49,8 +53,13 @@ func ExtractInstanceTags(m []byte) (ours, theirs uint32, ok bool) {
 			return 0, 0, false
 		}
 
-		_, senderInstanceTag, _ := ExtractWord(msg[messageHeaderPrefix:])
-		_, receiverInstanceTag, _ := ExtractWord(msg)
+		// only version 3 messages carry instance tags
+		if _, v, _ := ExtractShort(msg); v != (otrV3{}).protocolVersion() {
+			return 0, 0, false
+		}
+
+		rest, senderInstanceTag, _ := ExtractWord(msg[messageHeaderPrefix:])
+		_, receiverInstanceTag, _ := ExtractWord(rest)
 
 		return receiverInstanceTag, senderInstanceTag, true
 	} else if bytes.HasPrefix(m, []byte("?OTR|")) {
